@@ -331,6 +331,13 @@ def handle_gen(rng, tier):
             out.append("%s%d cfg=%s l=%s client=%s q=%s up=%s%s%s" % (tag, idx, spec, l, client, gens.hx(q), up, dl,
                                                              hv if (l.startswith("http") or l.startswith("fasthttp")) else ""))
         if ci == 1:
+            # one SILENT-upstream query on every listener kind (the SERVFAIL after the 6 s deadline must be delivered on each)
+            for l in ("udp", "tcp", "gnet", "tls", "quic", "http-post", "http-get", "fasthttp-post", "https-post", "https-get"):
+                idx += 1
+                q, name, qtype, qclass = gen_query(rng, cfg, idx)
+                q = struct.pack(">HHHHHH", rng.randrange(65536), 0x0100, 1, 0, 0, 0) + gens.raw_name([b"sil%d" % idx, b"test"]) + \
+                    b"\0" + struct.pack(">HH", 1, idx % 65536)
+                out.append("s%d cfg=%s l=%s client=- q=%s up=silent" % (idx, spec, l, gens.hx(q)))
             # boundary configuration #1 forwards every name and starts every listener kind: frame-size boundary
             zs, idx = size_boundary_cases(rng, spec, idx)
             out.extend(zs)
